@@ -230,6 +230,12 @@ check_conv1d(const json& c)
     vf::stats().cls("conv1d output longer than input");
   if (olen < x.len[2])
     vf::stats().cls("conv1d output shorter than input");
+  // the documented trivial filter: empty kernel, or the single coefficient 1 at index 0 (own statement of is_trivial()'s class)
+  if (k.empty() || (k.c.size() == 1 && k.mn == 0 && k.c[0] == 1.))
+    {
+      const bool beyond = olen > 0 && x.len[2] > 0 && (omin < x.mn[2] || omin + olen - 1 > x.mx(2));
+      vf::stats().cls(vf::cat("conv1d trivial kernel, ", bc == 0 ? "zero" : "constant", " boundary", beyond ? ", output beyond the input" : ""));
+    }
 
   stir::VectorWithOffset<float> kv(k.mn, k.mx());
   for (int j = k.mn; j <= k.mx(); ++j)
@@ -391,6 +397,18 @@ check_dftconv(const json& c)
     vf::stats().cls("dftconv padded length >= 2 x data length");
   if (twice && noalias)
     vf::stats().cls("dftconv padded length >= 2 x data length and no wrap-around");
+  {
+    bool in_full = true, out_full = true;
+    for (int q = 3 - D; q < 3; ++q)
+      {
+        in_full = in_full && dmin[q] == 0 && dlen[q] == P[q];
+        out_full = out_full && omin[q] == 0 && olen[q] == P[q];
+      }
+    if (in_full && out_full)
+      vf::stats().cls(vf::cat("dftconv ", D, "-D data and output on exactly the padding range (direct branch)"));
+    else if (in_full)
+      vf::stats().cls(vf::cat("dftconv ", D, "-D data on exactly the padding range, output on another range"));
+  }
 
   stir::ArrayFilterUsingRealDFTWithPadding<D, float> filter;
   const stir::Array<D, float> ks = to_stir<D, float>(KS);
